@@ -2,7 +2,7 @@
    specification facts), SortProofs.v (quicksort) and SeqTupleProofs.v (Tuple), with the capacity
    rules of Array_Reserve_More/Less taken from Generated.v. *)
 From Coq Require Import List Arith Bool ZArith Lia Permutation Sorted.
-From CelloV Require Import Generated SeqModels SeqProofs SortProofs SeqTupleProofs SeqErrorProofs SeqAccessProofs.
+From CelloV Require Import Generated SeqModels SeqCmps SeqProofs SortProofs SeqTupleProofs SeqErrorProofs SeqAccessProofs.
 Import ListNotations.
 
 Section Main.
@@ -218,3 +218,27 @@ Section Access.
     - apply t_read_pure.
   Qed.
 End Access.
+
+(* ------------------------------------------------------------------ sort_by: ordered by the GIVEN function *)
+(* the comparisons the harness hands to sort_by that are asymmetric and transitive (lt, gt, by absolute
+   value, by a key with ties, never) satisfy the hypotheses of the sort theorem *)
+Lemma z_cmp_in_contract (k : nat) :
+  cmp_in_contract k = true ->
+  (forall x y, z_cmp k x y = true -> z_cmp k y x = false) /\
+  (forall x y z, z_cmp k x y = true -> z_cmp k y z = true -> z_cmp k x z = true).
+Proof.
+  destruct k as [|[|[|[|[|[|[|k]]]]]]]; simpl; intros Hc; try discriminate Hc; split; intros;
+    try discriminate; try reflexivity;
+    repeat match goal with H : (_ <? _)%Z = true |- _ => apply Z.ltb_lt in H end;
+    try (apply Z.ltb_ge); try (apply Z.ltb_lt); lia.
+Qed.
+
+Theorem driver_comparisons_in_contract (k : nat) :
+  cmp_in_contract k = true ->
+  (forall a b, e_cmp k a b = true -> e_cmp k b a = false) /\
+  (forall a b c, e_cmp k a b = true -> e_cmp k b c = true -> e_cmp k a c = true).
+Proof.
+  intros H. destruct (z_cmp_in_contract k H) as [Ha Ht]. unfold e_cmp. split.
+  - intros a b. apply Ha.
+  - intros a b c. apply Ht.
+Qed.
